@@ -53,6 +53,21 @@ func (s *stats) logServerStats() {
 	dlog.Server.Mapreduce("STATS", data)
 }
 
+// Reserve a connection slot (if there is any left).
+func (s *stats) reserveConnection() error {
+	s.mutex.Lock()
+	if s.currentConnections >= config.Server.MaxConnections {
+		s.mutex.Unlock()
+		return fmt.Errorf("Exceeded max allowed concurrent connections of %d",
+			config.Server.MaxConnections)
+	}
+	s.currentConnections++
+	s.lifetimeConnections++
+	s.mutex.Unlock()
+	s.logServerStats()
+	return nil
+}
+
 func (s *stats) serverLimitExceeded() error {
 	s.mutex.Lock()
 	defer s.mutex.Unlock()
